@@ -193,7 +193,7 @@ fn triples(ctx: &mut Ctx, conv: &Converter) {
 /// base amount by the converter's own definition of the unit (its agreement with the standard
 /// definitions is checked separately, to 1e-6, by `table_agreement` and `check_pair`)
 fn base_amount(conv: &Converter, q: &ScaledQuantity) -> Option<(PhysicalQuantity, f64, f64)> {
-    let u = conv.find_unit(q.unit()?)?;
+    let u = units::unit_by_exact_key(conv, q.unit()?)?;
     let (s, e) = amount(q.value())?;
     let b = |x: f64| (x + u.difference) * u.ratio;
     Some((u.physical_quantity, b(s), b(e)))
